@@ -86,6 +86,8 @@ def main():
             print("  " + m)
         sys.exit(1)
     json.dump(ev, open(ev_path, "w"), indent=1)
+    os.makedirs(f"{ROOT}/evidence/thorough", exist_ok=True)
+    json.dump(ev, open(f"{ROOT}/evidence/thorough/{prop}.json", "w"), indent=1)
     print(f"miri tier: {n_prog} programs x {n_seeds} seeds = {executions} interleavings, {wall:.0f}s, no violation")
 
 main()
